@@ -142,7 +142,7 @@ def explore(mod_name, func_name, params, opts):
         # witness of the path (reachability twin: `false` must be refuted)
         witness = None
         if status != 'abort':
-            v, m = ctx.full_model(TRUE, ctx.t_claim)
+            v, m = ctx.witness_model()
             if v == 'unsat':
                 # a path entered through a branch whose feasibility the solver
                 # could not decide (explored as an over-approximation) and that
